@@ -141,12 +141,10 @@ Section Truncated.
 Variable nu : R -> R.
 Variable n : nat.
 Variable F : R -> R -> R.
-Variable D : R -> Prop.
-Hypothesis HF : forall a b, a <= b -> D a -> D b -> is_RInt (fun x => x ^ n * nu x) a b (F a b).
+Variable P : R -> R -> Prop.       (* intervals on which the closed form is the integral (e.g. one side of zero for infinite activity) *)
+Hypothesis HF : forall a b, a <= b -> P a b -> is_RInt (fun x => x ^ n * nu x) a b (F a b).
 Variables l r : R.
 Hypothesis Hlr : l <= r.
-Hypothesis Dl : D l.
-Hypothesis Dr : D r.
 
 Let g := fun x => x ^ n * truncated_nu nu l r x.
 
@@ -164,45 +162,65 @@ Proof.
     unfold g. rewrite truncated_nu_outside by lra. symmetry; apply Rmult_0_r.
   - apply is_RInt_zero.
 Qed.
-Lemma trunc_inside a b : a <= b -> l <= a -> b <= r -> D a -> D b -> is_RInt g a b (F a b).
+Lemma trunc_inside a b : a <= b -> l <= a -> b <= r -> P a b -> is_RInt g a b (F a b).
 Proof.
-  intros Hab Ha Hb Da Db. apply is_RInt_ext with (f := fun x => x ^ n * nu x).
+  intros Hab Ha Hb Pab. apply is_RInt_ext with (f := fun x => x ^ n * nu x).
   - intros x Hx. rewrite Rmin_left, Rmax_right in Hx by assumption.
     unfold g. rewrite truncated_nu_inside by lra. reflexivity.
   - apply HF; assumption.
 Qed.
+Lemma closed_point_P x : P x x -> F x x = 0.
+Proof.
+  intros Px. assert (H := HF x x (Rle_refl x) Px).
+  rewrite <- (is_RInt_unique (fun t => t ^ n * nu t) x x (F x x) H).
+  apply is_RInt_unique. apply (@is_RInt_point R_NormedModule).
+Qed.
 
-(* TruncatedLevyMeasure.integrate*(a,b) is the integral of x^n * (truncated density) over [a,b],
-   i.e. the integral of x^n * nu over [a,b] /\ [l,r] *)
-Lemma truncated_is_RInt a b : a <= b -> D a -> D b ->
+(* TruncatedLevyMeasure.integrate*(a,b) is the integral of x^n * (truncated density) over [a,b], i.e. the integral of
+   x^n * nu over [a,b] /\ [l,r].  The closed form only needs to be valid on the CLIPPED interval (so l < 0 < r is allowed
+   for an infinite-activity mass as long as the clipped interval stays on one side of zero). *)
+Lemma truncated_is_RInt a b : a <= b ->
+  P (fst (truncated_interval l r a b)) (snd (truncated_interval l r a b)) ->
   is_RInt g a b (truncated_integrate F l r a b).
 Proof.
-  intros Hab Da Db. unfold truncated_integrate.
+  intros Hab. unfold truncated_integrate.
   replace (Rltb b a) with false by (symmetry; apply Rltb_false; assumption).
-  rewrite truncated_interval_eq.
+  rewrite truncated_interval_eq. cbn [fst snd].
   destruct (Rle_dec b l) as [Hbl | Hbl].
-  { (* [a,b] left of the truncation: clipped to [l,l] *)
-    rewrite (Rmin_left a r), (Rmax_right a l), (Rmax_right b l), (Rmin_left l r) by lra.
-    rewrite (closed_point _ F D HF l Dl). apply trunc_zero_left; assumption. }
+  { rewrite (Rmin_left a r), (Rmax_right a l), (Rmax_right b l), (Rmin_left l r) by lra.
+    intros Pll. rewrite (closed_point_P l Pll). apply trunc_zero_left; assumption. }
   apply Rnot_le_lt in Hbl.
   destruct (Rle_dec r a) as [Hra | Hra].
   { rewrite (Rmin_right a r), (Rmax_left r l), (Rmax_left b l), (Rmin_right b r) by lra.
-    rewrite (closed_point _ F D HF r Dr). apply trunc_zero_right; assumption. }
+    intros Prr. rewrite (closed_point_P r Prr). apply trunc_zero_right; assumption. }
   apply Rnot_le_lt in Hra.
   rewrite (Rmin_left a r), (Rmax_left b l) by lra.
-  (* overlapping: [a, max a l] zero, [max a l, min b r] inside, [min b r, b] zero *)
   destruct (Rle_dec a l) as [Hal | Hal]; destruct (Rle_dec b r) as [Hbr | Hbr].
-  - rewrite (Rmax_right a l), (Rmin_left b r) by lra.
+  - rewrite (Rmax_right a l), (Rmin_left b r) by lra. intros Pab.
     replace (F l b) with (plus 0 (F l b)) by (unfold plus; simpl; ring).
     apply (is_RInt_Chasles g a l b); [apply trunc_zero_left; lra | apply trunc_inside; try lra; assumption].
-  - apply Rnot_le_lt in Hbr. rewrite (Rmax_right a l), (Rmin_right b r) by lra.
+  - apply Rnot_le_lt in Hbr. rewrite (Rmax_right a l), (Rmin_right b r) by lra. intros Pab.
     replace (F l r) with (plus (plus 0 (F l r)) 0) by (unfold plus; simpl; ring).
     apply (is_RInt_Chasles g a r b); [|apply trunc_zero_right; lra].
     apply (is_RInt_Chasles g a l r); [apply trunc_zero_left; lra | apply trunc_inside; try lra; assumption].
-  - apply Rnot_le_lt in Hal. rewrite (Rmax_left a l), (Rmin_left b r) by lra.
+  - apply Rnot_le_lt in Hal. rewrite (Rmax_left a l), (Rmin_left b r) by lra. intros Pab.
     apply trunc_inside; try lra; assumption.
-  - apply Rnot_le_lt in Hal. apply Rnot_le_lt in Hbr. rewrite (Rmax_left a l), (Rmin_right b r) by lra.
+  - apply Rnot_le_lt in Hal. apply Rnot_le_lt in Hbr. rewrite (Rmax_left a l), (Rmin_right b r) by lra. intros Pab.
     replace (F a r) with (plus (F a r) 0) by (unfold plus; simpl; ring).
     apply (is_RInt_Chasles g a r b); [apply trunc_inside; try lra; assumption | apply trunc_zero_right; lra].
 Qed.
 End Truncated.
+
+(* the end-point-domain form (every end point admissible, e.g. finite for a finite-activity measure) *)
+Lemma truncated_is_RInt_D (nu : R -> R) (n : nat) (F : R -> R -> R) (D : R -> Prop) :
+  (forall a b, a <= b -> D a -> D b -> is_RInt (fun x => x ^ n * nu x) a b (F a b)) ->
+  forall l r, l <= r -> D l -> D r -> forall a b, a <= b -> D a -> D b ->
+  is_RInt (fun x => x ^ n * truncated_nu nu l r x) a b (truncated_integrate F l r a b).
+Proof.
+  intros HF l r Hlr Dl Dr a b Hab Da Db.
+  apply (truncated_is_RInt nu n F (fun x y => D x /\ D y)); try assumption.
+  - intros x y Hxy [Dx Dy]. apply HF; assumption.
+  - rewrite truncated_interval_eq. cbn [fst snd]. split.
+    + unfold Rmax, Rmin. destruct (Rle_dec a r); destruct (Rle_dec _ l); assumption.
+    + unfold Rmax, Rmin. destruct (Rle_dec b l); destruct (Rle_dec _ r); assumption.
+Qed.
